@@ -425,6 +425,86 @@ class Prop:
         lines += ["iter"] * k
         return lines
 
+    def swap_case(self, rng, rounds=None):
+        """histories aimed at PollPoller's swap-with-last removal: several channels registered in a random order, the
+        LAST array entry disabled but not removed (stored as -fd-1), an earlier entry removed (the disabled entry is
+        moved into the hole), optionally another channel registered afterwards (it gets the slot one past the old end),
+        then the moved channel is updated / removed and both are made ready"""
+        n = rng.choice([2, 3, 3, 4, 5, 6])
+        spare = rng.choice([1, 2, 3])
+        lines = ["chan %d %s" % (i, rng.choice(["sock", "sock", "pipe"])) for i in range(n + spare)]
+        kinds = {i: lines[i].split()[2] for i in range(n + spare)}
+        order = list(range(n))
+        rng.shuffle(order)
+        arr, ev = [], {}
+        free = list(range(n, n + spare))
+
+        def enable(i):
+            what = "enableW" if (kinds[i] == "sock" and rng.random() < 0.2) else "enableR"
+            lines.append("op %d %s" % (i, what))
+            ev[i] = UPDATES[what](ev.get(i, 0))
+            if i not in arr:
+                arr.append(i)
+
+        for i in order:
+            enable(i)
+        if rng.random() < 0.3:
+            lines.append("iter")
+        for _ in range(rounds or rng.choice([1, 1, 2, 3])):
+            if len(arr) < 2:
+                if not free:
+                    break
+                enable(free.pop(0))
+                continue
+            last = arr[-1]
+            if rng.random() < 0.85:
+                # the last entry: without interest, still registered
+                lines.append("op %d %s" % (last, "disableAll" if ev[last] != READ_EV or rng.random() < 0.7 else "disableR"))
+                ev[last] = 0
+            victim = rng.choice(arr[:-1]) if rng.random() < 0.9 else last
+            if ev[victim] != 0:
+                lines.append("op %d disableAll" % victim)
+                ev[victim] = 0
+            lines.append("op %d remove" % victim)
+            k = arr.index(victim)
+            arr[k] = arr[-1]
+            arr.pop()
+            if rng.random() < 0.2:
+                lines.append("iter")
+            fresh = None
+            t = rng.random()
+            if t < 0.55 and free:
+                fresh = free.pop(0)
+            elif t < 0.75:
+                fresh = victim
+                if rng.random() < 0.5:
+                    lines.append("op %d recreate" % victim)
+            if fresh is not None:
+                enable(fresh)
+            touched = [last] if last in arr else []
+            if touched:
+                t = rng.random()
+                if t < 0.7:
+                    enable(last)
+                elif t < 0.85:
+                    if ev[last] != 0:
+                        lines.append("op %d disableAll" % last)
+                        ev[last] = 0
+                    lines.append("op %d remove" % last)
+                    k = arr.index(last)
+                    arr[k] = arr[-1]
+                    arr.pop()
+                else:
+                    lines.append("op %d disableAll" % last)
+                    ev[last] = 0
+            for i in set(touched + ([fresh] if fresh is not None else []) + [rng.choice(arr)] if arr else []):
+                lines.append("peer %d write 1" % i)
+            lines.append("iter")
+            if rng.random() < 0.5:
+                lines.append("iter")
+        lines.append("iter")
+        return lines
+
     EXH_ALPHA = ["enableR", "disableR", "enableW", "disableW", "disableAll", "remove", "recreate"]
 
     def exhaustive_cases(self, depth, per_case=30):
@@ -449,7 +529,9 @@ class Prop:
             cur += ["chan %d sock" % a, "chan %d pipe" % b, "peer %d close" % a, "op %d enableR" % b]
             for what in seq:
                 cur += ["op %d %s" % (a, what), "iter"]
-            cur += ["op %d disableAll" % a, "op %d remove" % a, "op %d disableAll" % b, "op %d remove" % b, "iter"]
+            # clean up (a channel that the sequence left unregistered is not touched: an update without interest
+            # on it would be finding F21 and, asserts on, end the process before the remaining sequences)
+            cur += (["op %d disableAll" % a, "op %d remove" % a] if r else []) + ["op %d disableAll" % b, "op %d remove" % b, "iter"]
             nseq += 1
             if nseq % per_case == 0:
                 cases.append(cur)
@@ -470,7 +552,15 @@ class Prop:
             if rc != 0:
                 model.append(["<<driver exit %d>> %s" % (rc, err.strip()[:200])])
             # after an abort/fatal both sides stop; otherwise block for block
-            mismatch = ctx.compare(case, impl, model)
+            impl_c = impl
+            if self.flavour.endswith("ndebug"):
+                # the model stops where an assertion of the code fails; a build without assertions goes on: the
+                # comparison ends there (the asserts-on flavour reports that history: `abort` / F21 `blind-abort`)
+                k = next((i for i, b in enumerate(model) if "abort" in b), None)
+                if k is not None:
+                    ctx.count("ndebug:failed-assertion-of-the-model-not-observable")
+                    impl_c, model = impl[:k], model[:k]
+            mismatch = ctx.compare(case, impl_c, model)
         return impl, fails, mismatch
 
     @staticmethod
@@ -503,11 +593,11 @@ class Prop:
                 ctx.count("cross_skipped_iterations(different kernel report)")
         return None
 
-    def check_case(self, ctx, exes, lines, origin, cross=True, shrink=True):
+    def check_case(self, ctx, exes, lines, origin, cross=True, shrink=True, with_model=True):
         """run one history under both back-ends; returns True if something was reported"""
         impls = {}
         for be in BACKENDS:
-            impl, fails, mismatch = self.run_backend(ctx, exes, lines, be)
+            impl, fails, mismatch = self.run_backend(ctx, exes, lines, be, with_model=with_model)
             impls[be] = impl
             ncb = sum(1 for b in impl for l in b if l.startswith("cb "))
             for b in impl:
@@ -546,13 +636,17 @@ class Prop:
                 return True
             if mismatch:
                 small = lines
-                if shrink:
+                if shrink and not os.environ.get("C09_NOSHRINK"):
                     def still2(ls, be=be):
                         _, f, mm = self.run_backend(ctx, exes, ls, be)
                         return mm is not None and not f
                     small = ddmin(lines, still2, budget=120)
                     _, _, mm = self.run_backend(ctx, exes, small, be)
                     mismatch = mm or mismatch
+                # the model and the implementation disagree while the oracle still accepts the trace: look for a
+                # continuation of this very history on which the implementation violates the property (DESIGN 2.5)
+                if self.extend_divergence(ctx, exes, small, be, cross):
+                    return True
                 ctx.mismatches.append((Case("poller", ["# backend=%s flavour=%s" % (be, self.flavour)] + small, origin, {"argv": [be]}),
                                        "[%s, %s] %s" % (be, self.flavour, mismatch)))
                 return True
@@ -571,6 +665,102 @@ class Prop:
                                             "[%s] %s" % (self.flavour, d)))
                 return True
         return False
+
+    def diverging_channels(self, ctx, exes, lines, be):
+        """channels named in the first block where model and implementation differ (tokens `c:v`, `op c ..`, `cb c ..`)"""
+        case = Case("poller", lines, meta={"argv": [be]})
+        impl, _ = ctx.run_impl(exes, case, timeout=300)
+        rc, out, err = leanside.run_driver("poller", ctx.model_input(case, impl), timeout=300, args=[be])
+        model = split_blocks(out)
+        chans = []
+        for i in range(min(len(impl), len(model))):
+            a, b = ctx.observable(impl[i]), ctx.observable(model[i])
+            if a == b:
+                continue
+            ta = set(t for l in a for t in l.split())
+            tb = set(t for l in b for t in l.split())
+            for t in sorted(ta ^ tb):
+                m = re.match(r"~?(\d+):-?\d+$", t)
+                if m and int(m.group(1)) not in chans:
+                    chans.append(int(m.group(1)))
+            for l in a + b:
+                w = l.split()
+                if len(w) >= 2 and w[0] in ("op", "cb", "reject") and w[1].isdigit() and (l not in a or l not in b) and int(w[1]) not in chans:
+                    chans.append(int(w[1]))
+            break
+        return chans
+
+    def extend_divergence(self, ctx, exes, lines, be, cross):
+        """the history `lines` makes the model and the implementation differ without violating the property yet
+        (typically internal state: a slot number): continue it with operations on the channels of the diverging
+        line - update / remove them, register another channel in between, make them ready, iterate - and evaluate the
+        oracle alone on every continuation.  True when a concrete failing input was reported."""
+        declared = [int(l.split()[1]) for l in lines if l.startswith("chan ")]
+        if not declared:
+            return False
+        involved = self.diverging_channels(ctx, exes, lines, be)[:3] or declared[:3]
+        reg, ev = {}, {}
+        for l in lines:
+            w = l.split()
+            if w[0] == "op" and len(w) == 3:
+                i = int(w[1])
+                if w[2] in UPDATES:
+                    ev[i] = UPDATES[w[2]](ev.get(i, 0))
+                    reg[i] = True
+                elif w[2] == "remove" and reg.get(i) and ev.get(i, 0) == 0:
+                    reg[i] = False
+        base = list(lines)
+        while base and base[-1] == "iter":
+            base.pop()
+        fresh = max(declared) + 1
+        unreg = [i for i in declared if not reg.get(i)][:1]
+        tails = []
+        for c in involved:
+            for other in [None, "fresh"] + unreg:
+                pre, d = [], None
+                if other == "fresh":
+                    pre, d = ["chan %d sock" % fresh, "op %d enableR" % fresh], fresh
+                elif other is not None and other != c:
+                    pre, d = ["op %d enableR" % other], other
+                for touch in ("enableR", "enableW", "disableAll", "remove"):
+                    t = list(pre)
+                    if touch == "remove":
+                        if not reg.get(c):
+                            continue
+                        if ev.get(c, 0) != 0:
+                            t.append("op %d disableAll" % c)
+                    t.append("op %d %s" % (c, touch))
+                    t += ["peer %d write 1" % c] + (["peer %d write 1" % d] if d is not None else []) + ["iter", "iter"]
+                    tails.append(t)
+        for k in range(40 if ctx.quick() else 150):
+            # random continuations on the involved channels and their neighbours
+            pool = list(dict.fromkeys(involved + declared[:4]))
+            t = []
+            if ctx.rng.random() < 0.5:
+                t += ["chan %d sock" % fresh, "op %d enableR" % fresh, "peer %d write 1" % fresh]
+            for _ in range(ctx.rng.randrange(1, 8)):
+                i = ctx.rng.choice(pool)
+                r = ctx.rng.random()
+                if r < 0.5:
+                    t.append("op %d %s" % (i, ctx.rng.choice(["enableR", "enableR", "enableW", "disableAll"])))
+                elif r < 0.65:
+                    t += ["op %d disableAll" % i, "op %d remove" % i]
+                elif r < 0.85:
+                    t.append("peer %d write 1" % i)
+                else:
+                    t.append("iter")
+            tails.append(t + ["iter", "iter"])
+        ctx.count("divergence_extensions", len(tails))
+        for t in tails:
+            if self.check_case(ctx, exes, base + t, "search:continuation-of-divergence", cross=cross, with_model=False):
+                return True
+        return False
+
+    def enough(self, ctx):
+        """one concrete violation ends the exploration; disagreements with the model alone do not end a search"""
+        if ctx.oracle_failures:
+            return True
+        return len(ctx.mismatches) >= (6 if ctx.search_mode else 2)
 
     flavour = "dbg"
     KNOWN_KINDS = ("blind-watch", "blind-spin", "blind-abort")
@@ -592,7 +782,7 @@ class Prop:
             ctx.oracle_failures += self.known_failures
 
     def correspondence_(self, ctx, replay=None):
-        flavours = ["dbg"] if ctx.quick() else ["dbg", "ndebug", "asan-ndebug"]
+        flavours = (["dbg", "ndebug"] if ctx.search_mode else ["dbg"]) if ctx.quick() else ["dbg", "ndebug", "asan-ndebug"]
         ctx.extra["flavours"] = flavours
         ctx.extra["pollers"] = list(BACKENDS)
         if replay:
@@ -616,9 +806,14 @@ class Prop:
             for p in sorted(glob.glob(os.path.join(CORPUS, "C09", "*.case"))):
                 lines, cross = self.read_case(p)
                 ctx.count("corpus_cases")
-                if self.check_case(ctx, exe, lines, "corpus:" + os.path.basename(p), cross=cross) and ctx.stop():
+                if self.check_case(ctx, exe, lines, "corpus:" + os.path.basename(p), cross=cross) and self.enough(ctx):
                     return
             thorough = (not ctx.quick()) or ctx.search_mode
+            # removals that move a disabled last entry of PollPoller's array, then updates of the moved channel
+            for k in range((400 if first else 150) if thorough else 60):
+                ctx.count("swap_cases")
+                if self.check_case(ctx, exe, self.swap_case(ctx.rng), "swap-with-last") and self.enough(ctx):
+                    return
             # exhaustive small depth (on the first flavour; depth 3 in the other flavours of the thorough tier)
             depth = (4 if first else 3) if thorough else 3
             cases = self.exhaustive_cases(depth)
@@ -626,7 +821,7 @@ class Prop:
                 ctx.extra["exhaustive_part"] = {"depth": depth, "alphabet": len(self.EXH_ALPHA), "sequences": len(self.EXH_ALPHA) ** depth,
                                                 "processes": len(cases)}
             for ls in cases:
-                if self.check_case(ctx, exe, ls, "exhaustive-depth-%d" % depth) and ctx.stop():
+                if self.check_case(ctx, exe, ls, "exhaustive-depth-%d" % depth) and self.enough(ctx):
                     return
             # bursts of simultaneously ready descriptors around the array sizes
             sizes = [1, 14, 15, 16, 17, 33, 70] if not thorough else [1, 2, 14, 15, 16, 17, 30, 31, 32, 33, 47, 48, 49, 64, 100, 111, 112, 113, 200, 300]
@@ -634,7 +829,7 @@ class Prop:
                 sizes = [15, 16, 47, 300]
             for n in sizes:
                 ctx.count("burst_cases")
-                if self.check_case(ctx, exe, self.burst_case(ctx.rng, n), "burst-%d" % n) and ctx.stop():
+                if self.check_case(ctx, exe, self.burst_case(ctx.rng, n), "burst-%d" % n) and self.enough(ctx):
                     return
             # random histories
             nrand = (1500 if first else 400) if thorough else 220
@@ -645,7 +840,7 @@ class Prop:
                 ctx.count("random_cases")
                 if cross_sensitive:
                     ctx.count("order_sensitive_cases")
-                if self.check_case(ctx, exe, lines, "random", cross=not cross_sensitive) and ctx.stop():
+                if self.check_case(ctx, exe, lines, "random", cross=not cross_sensitive) and self.enough(ctx):
                     return
 
 
